@@ -35,7 +35,10 @@
 (*                            <<statements>>]  (statements: module PyFn)   *)
 (*     ConstDef(v)           [k |-> "const", v |-> rational]               *)
 (*   i.e. the global name space of the Python module(s) a function lives   *)
-(*   in.  Functions must not be recursive.                                 *)
+(*   in.  Functions must not be recursive.  A definition may carry a scope *)
+(*   chain (FnDefS: function-level imports, closure cells) that is         *)
+(*   searched before the module table; View / CalleeView build the table a *)
+(*   function sees (see "name resolution" below).                          *)
 (* Meaning.                                                                *)
 (*     Eval(e, env, ft)      env: function from names to values.  Python   *)
 (*                           order of evaluation, short-circuit and/or/    *)
@@ -143,6 +146,22 @@ ArgFor(f, e, m) ==
     ELSE 0
 ParamIdx(f, x) == CHOOSE m \in DOMAIN f.params : f.params[m] = x
 
+\* ---- name resolution: a chain of scopes on top of the module's globals ------------------------------------------
+\* Locals (parameters and assigned names) live in env.  Every other name - a named constant, a called function -
+\* is resolved like Python does: innermost first through the function's own scope chain (a definition may carry
+\* scopes |-> <<tab1, tab2, ...>>: function-level imports with their aliases, then the cells of enclosing
+\* functions; each tab maps names to ConstDef / FnDef), then the module's globals.  ft is the VIEW of the function
+\* being evaluated; it remembers the module table under "__mod" so that a callee starts again from the module's
+\* globals plus its OWN chain (a callee never sees the caller's imports or cells).
+ScopesOf(f) == IF "scopes" \in DOMAIN f THEN f.scopes ELSE <<>>
+ModTab(ft)  == IF "__mod" \in DOMAIN ft THEN ft["__mod"].tab ELSE ft
+Over(a, b)  == [x \in DOMAIN a \cup DOMAIN b |-> IF x \in DOMAIN a THEN a[x] ELSE b[x]]       \* a wins
+RECURSIVE Overlay(_, _, _)
+Overlay(sc, i, base) == IF i > Len(sc) THEN base ELSE Over(sc[i], Overlay(sc, i + 1, base))
+View(sc, ft) == LET m == ModTab(ft) IN Over([x \in {"__mod"} |-> [k |-> "mod", tab |-> m]], Overlay(sc, 1, m))
+CalleeView(f, ft) == IF ScopesOf(f) = <<>> /\ "__mod" \notin DOMAIN ft THEN ft ELSE View(ScopesOf(f), ft)
+FnDefS(params, defs, body, scopes) == [k |-> "fn", params |-> params, body |-> body, defs |-> defs, scopes |-> scopes]
+
 \* ---- meaning ---------------------------------------------------------------------------
 RECURSIVE Eval(_, _, _), EvalSeq(_, _, _, _), EvalCmp(_, _, _, _, _), EvalAnd(_, _, _, _),
           EvalOr(_, _, _, _), FoldMinMax(_, _, _, _), RunFrom(_, _, _, _), RunWhile(_, _, _, _), RunFor(_, _, _, _, _)
@@ -215,7 +234,8 @@ Eval(e, env, ft) ==
                                           [x \in SeqRange(f.params) |->
                                               LET m == ParamIdx(f, x)
                                                   j == ArgFor(f, e, m)
-                                              IN IF j = 0 THEN DefsOf(f)[m - FirstDef(f) + 1] ELSE vs[j]], ft)
+                                              IN IF j = 0 THEN DefsOf(f)[m - FirstDef(f) + 1] ELSE vs[j]],
+                                          CalleeView(f, ft))
                          IN IF r.st = "none" THEN Undef ELSE r.v
       [] e.k = "fn" ->
             LET vs == EvalSeq(e.args, 1, env, ft)
